@@ -44,7 +44,7 @@ def configs(ctx, rng, n):
     for i in range(n):
         s = sch[(i * 3 + rng.below(3)) % len(sch)]
         t = [1, 4, 16, 2, 8, 3][i % 6] if ctx.quick else rng.range(1, 16)
-        it, ch = rng.choice(pvptgrt.CHUNKS), rng.choice(pvptgrt.CHUNKS)
+        it, ch = rng.choice(pvptgrt.ITERS), rng.choice(pvptgrt.CHUNKS)
         if i % 5 == 0:
             it, ch = 1, 1
         ag = (rng.range(1, 1 << 30), rng.choice([30, 60, 100]), rng.range(1, 4))
@@ -113,15 +113,21 @@ def run(ctx, res, cases=None):
             cfgs = [fc] + cfgs[:2]
         groups.append([(p, g, b, exe, cfg) for cfg in cfgs])
     work = pvptgrt.interleave(groups)      # first configuration of every (program, globals, back-end), then the second, ...
-    if ctx.quick and len(work) > 48:
-        work = work[:48]
+    if ctx.quick and len(work) > 40:
+        work = work[:40]
+    if cases is None:
+        # the re-entry logic of the startup generator: iter in {0,1,2,3} x chunk in {1,2,3,7} on a class with 30 startup tasks
+        sw = [it for it in items if it[0].name == 'k16001' and list(it[1]) == [29] and it[2] == pvptg.BACKENDS[0]]
+        if sw:
+            p, g, b, exe = sw[0]
+            work = [(p, g, b, exe, cfg) for cfg in pvptgrt.startup_sweep(rng.fork(99))] + work
     results = pvptgrt.sweep(ctx, res, PROP, work, evaluate)
     feat = {}
     for p in progs:
         for k, v in p.features().items():
             feat[k] = feat.get(k, 0) + v
     res.rule = ('corpus programs first (classes with many startup instances, nested and expression-defined ranges), then the random data-valid programs shared with C02; every run has bodies answering AGAIN '
-                '(probability 30/60/100 %, 1..4 times, PRNG-chosen per instance and recomputed by the oracle) and a (task_startup_iter, task_startup_chunk) pair from {1,2,3,7,64,256}^2 (one run in five: 1/1), '
+                '(probability 30/60/100 %, 1..4 times, PRNG-chosen per instance and recomputed by the oracle) and a (task_startup_iter, task_startup_chunk) pair from {0,1,2,3,7,64,256} x {1,2,3,7,64,256} (one run in five: 1/1), plus the full sweep iter in {0,1,2,3} x chunk in {1,2,3,7} on a class with 30 startup tasks, '
                 'a scheduler out of 11, 1..16 threads, both dependency back-ends; one evaluation = one begin / again / end event or one startup ring or verdict line; distinct = distinct '
                 '(program, globals, back-end, configuration); non-trivial = at least 3 task instances executed')
     res.samples = [{'program': w[0].ser(w[1])[:300], 'globals': list(w[1]), 'backend': w[2], 'config': w[4], 'events': r['n'], 'stats': r['stats']} for w, r in results[:4]]
